@@ -15,6 +15,31 @@ CLAIMED = {
         "text-mode decoding and strptime/strftime (validated by the correspondence only); the Python harness. "
         "Outside the modelled domain: non-ASCII digits in dates, percent-decoded values that are not UTF-8.",
    ref="DESIGN.md §6 C03"),
+ "C10": dict(
+   text="Lean 4 theorems: the seconds arithmetic of the model of older_than agrees with an independent day-by-day calendar "
+        "(lexicographic order, prevDay) for every DAYS, current time and date; boundary kept, one second older purged, "
+        "future kept, antitone in DAYS, OverflowError exactly when now-DAYS is unrepresentable; only the first DeletionDate "
+        "line counts. Tied to /repo by an exhaustive boundary-grid differential check of older_than and the date parser, "
+        "with an independent integer-arithmetic oracle on the implementation.",
+   note="Trusted: Lean kernel + standard axioms; the model of datetime/timedelta/strptime; the harness.",
+   ref="DESIGN.md §6 C10"),
+ "C12": dict(
+   text="Lean 4 theorems: the greedy non-backtracking matcher that mirrors fnmatch.translate's regular expression decides "
+        "a declarative matching relation for every pattern and string; the parsed pattern never has adjacent stars; "
+        "literal patterns match only themselves; subject = full path iff the pattern starts with '/'. Tied to /repo by an "
+        "exhaustive differential check of Filter.matches over small alphabets plus random non-ASCII cases.",
+   note="Trusted: Lean kernel + standard axioms; the model of fnmatch.translate and of Python's re semantics for the "
+        "generated expressions (validated exhaustively on small alphabets only); the harness.",
+   ref="DESIGN.md §6 C12"),
+ "C13": dict(
+   text="Lean 4 theorems: the model of parse_indexes accepts a reply iff it denotes (independent relational grammar) indices "
+        "all within the list, and returns exactly those; the scope test is a component-boundary prefix test on normalised "
+        "paths; the offered list is a sorted permutation for every --sort mode. Tied to /repo by exhaustive differential "
+        "checks (all replies up to length 4/5 over a 10-symbol alphabet, path pairs, random entry lists) with an "
+        "independent regex-grammar oracle on the implementation.",
+   note="Trusted: Lean kernel + standard axioms; the model of int(), str.split, sorted(); the harness. Non-ASCII replies "
+        "are outside the modelled domain.",
+   ref="DESIGN.md §6 C13"),
 }
 
 checks = []
